@@ -563,6 +563,11 @@ func (ar *archiveReader) close() error {
 
 // readByteSpan reads the byte span from the archive. This allocates a new byte slice and returns it to the caller.
 func (ar *archiveReader) readByteSpan(ctx context.Context, bs byteSpan, stats *Stats) ([]byte, error) {
+	// The span comes from the index, which is read from the file unverified: a span that does not lie inside the
+	// file is corruption, and its length must not reach the allocator.
+	if bs.length > ar.footer.fileSize || bs.offset > ar.footer.fileSize-bs.length {
+		return nil, fmt.Errorf("archive %s: byte span (offset %d, length %d) lies outside the file (size %d)", ar.footer.hash.String(), bs.offset, bs.length, ar.footer.fileSize)
+	}
 	buff := make([]byte, bs.length)
 	_, err := ar.reader.ReadAtWithStats(ctx, buff[:], int64(bs.offset), stats)
 	if err != nil {
